@@ -283,3 +283,18 @@ package keeper
 //@ modifies reporter.Reporters
 //@ ensures [release_only_after_the_jail_time] err == nil ==> old(has(reporter.Reporters, accbytes(msg.ReporterAddress))) && old(reporter.Reporters[accbytes(msg.ReporterAddress)].Jailed) && blocktime(goCtx) >= old(reporter.Reporters[accbytes(msg.ReporterAddress)].JailedUntil) && !reporter.Reporters[accbytes(msg.ReporterAddress)].Jailed
 //@ ensures [other_reporters_untouched] forall a bytes :: a != accbytes(msg.ReporterAddress) ==> (has(reporter.Reporters, a) <==> old(has(reporter.Reporters, a))) && reporter.Reporters[a] == old(reporter.Reporters[a])
+
+// ---- withdrawing reporting rewards into stake (C04, C05, C19) ----
+// tipcredit(a): the reward credit of selector a, an 18-decimal number (0 without a record).
+//@ define tipcredit(a) = has(reporter.SelectorTips, a) ? reporter.SelectorTips[a] : 0
+
+//@ func (k msgServer).WithdrawTip(goCtx, msg) (resp, err)
+//@ requires [msg_present] msg != nil && bech32ok(msg.SelectorAddress)
+//@ requires [credit_below_2_63_tokens] forall a bytes :: has(reporter.SelectorTips, a) ==> reporter.SelectorTips[a] >= 0 && reporter.SelectorTips[a] < 9223372036854775808000000000000000000
+//@ requires [pools_distinct] module("tips_escrow_pool") != module("bonded_tokens_pool") && module("tips_escrow_pool") != module("not_bonded_tokens_pool")
+//@ modifies reporter.SelectorTips, staking.*, bank.bal
+//@ ensures [whole_tokens_of_the_credit_are_staked_and_leave_the_escrow] err == nil ==> arg(Delegate, bondAmt) == dectrunc(old(tipcredit(accbytes(msg.SelectorAddress)))) && bank.bal[module("tips_escrow_pool")] == old(bank.bal[module("tips_escrow_pool")]) - dectrunc(old(tipcredit(accbytes(msg.SelectorAddress))))
+//@ ensures [the_fraction_below_one_loya_stays_credited] err == nil ==> tipcredit(accbytes(msg.SelectorAddress)) == old(tipcredit(accbytes(msg.SelectorAddress))) - dectrunc(old(tipcredit(accbytes(msg.SelectorAddress)))) * 1000000000000000000
+//@ ensures [staked_from_the_bonded_pool_for_the_selector_with_a_bonded_validator] err == nil ==> arg(Delegate, tokenSrc) == 3 && !arg(Delegate, subtractAccount) && bytes(arg(Delegate, delAddr)) == accbytes(msg.SelectorAddress)
+//@ ensures [nothing_to_withdraw_is_rejected] dectrunc(old(tipcredit(accbytes(msg.SelectorAddress)))) == 0 ==> err != nil
+//@ ensures [only_the_signers_credit_and_the_two_pools_change] (forall a bytes :: a != accbytes(msg.SelectorAddress) ==> (has(reporter.SelectorTips, a) <==> old(has(reporter.SelectorTips, a))) && reporter.SelectorTips[a] == old(reporter.SelectorTips[a])) && forall x addr :: x != module("tips_escrow_pool") && x != module("bonded_tokens_pool") && x != module("not_bonded_tokens_pool") ==> bank.bal[x] == old(bank.bal[x])
